@@ -59,10 +59,14 @@ def nodeOp (n : RxPath.Node) (w : List String) : RxPath.Node × String :=
   | "arr" =>
     let m : RxPath.Msg := { port := num 1, sid := num 2, ctr := num 3, exch := num 4, initiator := w.getD 5 "" = "I", kind := kindOf (w.getD 6 "o"), ack := optNat (w.getD 7 "-"), reliable := w.getD 8 "" = "r" }
     let r := RxPath.step n (.arrive m (num 9))
-    (r.1, match r.2 with
+    -- the standalone ack the `Duplicate` arm sends (`RxPath.arriveAck`), as the peer reads it
+    let tx := match RxPath.arriveAck n m (num 9) with
+      | some w => s!" tx {w.port}/{w.sid}/{w.exch}/{if w.initiator then "I" else "R"}/{showOpt w.ack}/0.16"
+      | none => ""
+    (r.1, (match r.2 with
       | .blocked => "blocked"
       | .kept _ _ _ => "kept"
-      | _ => "drop")
+      | _ => "drop") ++ tx)
   | "acc" =>
     let r := RxPath.step n .accept
     (r.1, match r.2 with
@@ -153,7 +157,76 @@ def nodeOracle2 (acc : Option (Nat × Nat × String)) (prevRx : String) (w : Lis
     else none
   | none => none
 
+/-- the datagrams an `arr` result reports as sent (`tx` tokens), split at `/` -/
+def txOf (res : String) : List (List String) :=
+  let rec go : List String → List (List String)
+    | "tx" :: d :: rest => d.splitOn "/" :: go rest
+    | _ :: rest => go rest
+    | [] => []
+  go (words res)
+
+/-- is this sent datagram a standalone ack (protocol 0, opcode 0x10)? -/
+def isSack (d : List String) : Bool := d.getLast? = some "0.16"
+
+/-- the `arr` result with only the standalone acks kept: the other datagrams the receive path may send (Busy,
+CloseSession, SessionNotFound) are printed by the harness but not modelled -/
+def keepSacks (res : String) : String :=
+  let w := words res
+  (w.getD 0 "") ++ String.join ((txOf res).filter isSack |>.map (fun d => " tx " ++ "/".intercalate d))
+
+/-- per unsecured session (internal id): the counters it accepted, as the set-based SPECIFICATION of duplicate
+detection has them (`Dedup.PSpec`, written from the property text of C04: a value is accepted at most once per epoch
+of the peer's counter; a value more than the window below an accepted one restarts the epoch) -/
+abbrev Seen := List (Nat × Dedup.PSpec)
+
+/-- the unsecured session an arriving datagram addresses, in a snapshot of the implementation -/
+def sessFor (snap : ISnap) (port sid : Nat) : Option ISess :=
+  snap.sessions.find? (fun s => s.port = port && s.lsid = sid && s.mode = "x")
+
+/-- third clause (property text: "duplicates of already-received messages are acknowledged", with the protocol rule
+that an ack travels on the same exchange in the opposite direction), on the implementation's outputs alone:
+(a) a standalone ack sent in answer to an arriving message must be one the peer's exchange that sent the message
+matches: back to the sender, same session, same exchange id, COMPLEMENTARY initiator flag, ack = the message's counter;
+(b) a reliable message (not a standalone ack) on an existing unsecured session whose counter that session has already
+accepted (by the set-based specification of duplicate detection, fed with the arrivals of this case) is a
+retransmission and must be answered by such an ack - whether its exchange is still open, dropped or closed, and
+whoever initiated it. -/
+def nodeOracle3 (seen : Seen) (prevSnap : ISnap) (w : List String) (res : String) : Option String :=
+  if w.getD 0 "" != "arr" then none else
+  let num (i : Nat) : Nat := ((w.getD i "").toNat?).getD 0
+  let flag := w.getD 5 ""
+  let want := [toString (num 1), toString (num 2), toString (num 4), (if flag = "I" then "R" else "I"), toString (num 3), "0.16"]
+  let sacks := (txOf res).filter isSack
+  match sacks.find? (· != want) with
+  | some d => some s!"the standalone ack sent in answer to message {num 3} of exchange {num 4} ({flag}) from peer {num 1} is {"/".intercalate d}: the peer's exchange matches only {"/".intercalate want} (same exchange id, complementary initiator flag, ack = the counter)"
+  | none =>
+    let dup := (words res).head? != some "blocked" && num 2 = 0 && w.getD 8 "" = "r" && w.getD 6 "" != "a" &&
+      (match sessFor prevSnap (num 1) (num 2) with
+       | some s => match seen.lookup s.uid with
+         | some p => !Dedup.specPlainAccept p (num 3)
+         | none => false
+       | none => false)
+    if dup && sacks.isEmpty then
+      some s!"message {num 3} of exchange {num 4} from peer {num 1} had been received before (a retransmission) and was not acknowledged again"
+    else none
+
+/-- bookkeeping of `nodeOracle3` (b): `prevSnap` / `snap` = the implementation's table before / after the op -/
+def seenStep (seen : Seen) (w : List String) (res : String) (prevSnap snap : ISnap) : Seen :=
+  let num (i : Nat) : Nat := ((w.getD i "").toNat?).getD 0
+  let seen := seen.filter (fun (u, _) => snap.sessions.any (·.uid = u))
+  if w.getD 0 "" != "arr" || (words res).head? = some "blocked" || num 2 != 0 then seen else
+  match sessFor prevSnap (num 1) 0 with
+  | some s =>
+    let p := (seen.lookup s.uid).getD Dedup.PSpec.init
+    (s.uid, Dedup.specPlainNext p (num 3) (Dedup.specPlainAccept p (num 3))) :: seen.filter (·.1 != s.uid)
+  | none =>
+    -- a session this datagram created: its first message
+    match sessFor snap (num 1) 0 with
+    | some s => (s.uid, Dedup.specPlainNext Dedup.PSpec.init (num 3) true) :: seen.filter (·.1 != s.uid)
+    | none => seen
+
 structure St where
+  nodeSeen : Seen := []
   node : Option RxPath.Node := none
   nodePrev : ISnap × String := ({}, "-")
   nodeAcc : Option (Nat × Nat × String) := none
@@ -434,7 +507,10 @@ def step (st : St) (line : String) : St × String :=
     | some nd =>
       let (nd', res) := nodeOp nd w
       let full := res ++ " # " ++ nd'.t.show ++ " @ " ++ rxShow nd'.rx
-      let (ires, irest) := splitHash out
+      let (ires0, irest) := splitHash out
+      -- datagrams other than standalone acks are not modelled
+      let ires := if w.getD 0 "" = "arr" then keepSacks ires0 else ires0.trimAscii.toString
+      let out := ires ++ " # " ++ irest
       let (isnap, irx) := match irest.splitOn " @ " with
         | [a, b] => (a, b.trimAscii.toString)
         | _ => (irest, "?")
@@ -449,8 +525,10 @@ def step (st : St) (line : String) : St × String :=
             if irx != m || (sameU && (op = "drop" || op = "send" || op = "rm")) || ((parseSnap isnap).sess u).isNone then none
             else some (u, i, m)
           | none => none
-      let st' := { st with node := some nd', nodePrev := (parseSnap isnap, irx), nodeAcc := acc' }
-      match (nodeOracle st.nodePrev.1 st.nodePrev.2 w ires).orElse (fun _ => nodeOracle2 st.nodeAcc st.nodePrev.2 w ires) with
+      let st' := { st with node := some nd', nodePrev := (parseSnap isnap, irx), nodeAcc := acc',
+                           nodeSeen := seenStep st.nodeSeen w ires st.nodePrev.1 (parseSnap isnap) }
+      match ((nodeOracle st.nodePrev.1 st.nodePrev.2 w ires).orElse (fun _ => nodeOracle2 st.nodeAcc st.nodePrev.2 w ires)).orElse
+          (fun _ => nodeOracle3 st.nodeSeen st.nodePrev.1 w ires0) with
       | some why => (st', s!"ORA {why}")
       | none => if full = out then (st', "ok") else (st', s!"DIS {full}")
     | none =>
